@@ -4,6 +4,7 @@ from __future__ import annotations
 import numpy as np
 from hypothesis import strategies as st
 
+from vp.core import engine
 from vp.core.engine import Obligation, Property
 from vp.gen import agents as ag
 from vp.gen import histories as hist
@@ -85,6 +86,16 @@ def run_hp(case, ctx):
                 ctx.label(f"setup-failed:{type(e).__name__}")
                 return
             labels.add("selection-between-rounds")
+            continue
+        if op[0] == "learn":
+            # the agents train between generations: optimizers carry state (moments, step counters) when the next mutation comes
+            try:
+                for j, a in enumerate(pop):
+                    ag.seed_all(op[1] + j)
+                    ag.learn_once(a, spec0, op[1] + j)
+                labels.add("learn-step-before-a-mutation")
+            except Exception as e:  # noqa: BLE001 - learning is C02's / C20's promise
+                ctx.label(f"learn-raised:{type(e).__name__}")
             continue
         if op[0] == "clone":
             try:
@@ -169,7 +180,7 @@ def run_hp(case, ctx):
 
 @st.composite
 def hp_strategy(draw, tier):
-    algo = draw(st.sampled_from(list(HP_BY_ALGO)))
+    algo = draw(st.sampled_from(engine.stratum(list(HP_BY_ALGO))))
     names = HP_BY_ALGO[algo]
     params = {}
     for nm in names["float"]:
@@ -198,6 +209,7 @@ def hp_strategy(draw, tier):
                                      st.tuples(st.just("mutate"), st.integers(0, 999)),
                                      st.tuples(st.just("mutate"), st.integers(0, 999)),
                                      st.tuples(st.just("select"), st.integers(0, 999)),
+                                     st.tuples(st.just("learn"), st.integers(0, 999)),
                                      st.tuples(st.just("clone"))),
                            min_size=1, max_size=5 if tier == "quick" else 10))
     return {"algo": algo, "params": params, "pop": n, "init": init, "shared": draw(st.booleans()),
@@ -211,7 +223,9 @@ PROPERTY = Property(
           "population of 1-4 built from ONE shared HyperparameterConfig (as create_population does) or one each x 1-10 rounds of "
           "Mutations(rl_hp=1) interleaved with tournament selection / cloning; per agent per round the new value must be the agent's OWN old "
           "value times a factor, clipped, cast, inside range, and carried by every optimizer group registered with that lr name. "
-          "non-trivial = some round clipped or an int parameter was mutated, and a learning rate was mutated; distinct by configuration"),
+          "rounds are mutations interleaved with tournament selection, clone and LEARN steps (optimizers carry state when the next "
+          "mutation comes); non-trivial = some round clipped or an int parameter was mutated, and a learning rate was mutated; "
+          "distinct by configuration"),
     obligations=[
         Obligation("rl_hp_mutation", run_hp, strategy=hp_strategy,
                    examples={"quick": 40, "thorough": 500}, shards={"quick": 12, "thorough": 16},
@@ -219,5 +233,6 @@ PROPERTY = Property(
     ],
     assumptions=["populations share one HyperparameterConfig object exactly as agilerl.utils.utils.create_population passes it",
                  "relative tolerance 1e-12 on the expected value"],
-    wanted_labels=["clipped", "int-param", "lr-mutated", "shared-config", "own-config", "selection-between-rounds", "bound-type-differs-from-dtype"],
+    wanted_labels=["clipped", "int-param", "lr-mutated", "shared-config", "own-config", "selection-between-rounds", "bound-type-differs-from-dtype",
+                   "learn-step-before-a-mutation"],
 )
